@@ -36,7 +36,7 @@ class Package:
 class XGen:
     def __init__(self, rng, hostile=0.25, anomalies=0.0, optional_absent=0.0, dangling=0.0, fields=True, tables=True,
                  images=True, notes=True, comments=True, textboxes=True, deleted=True, numbering=True, malformed=0.0,
-                 max_depth=3, alt_no_fallback=0.0, switches=0.5):
+                 max_depth=3, alt_no_fallback=0.0, switches=0.5, linked_rate=0.15):
         self.rng = rng
         self.hostile, self.anomalies, self.optional_absent, self.dangling = hostile, anomalies, optional_absent, dangling
         self.fields, self.tables, self.images, self.notes_on, self.comments_on = fields, tables, images, notes, comments
@@ -44,6 +44,7 @@ class XGen:
         self.max_depth = max_depth
         self.alt_no_fallback = alt_no_fallback
         self.switches = switches
+        self.linked_rate = linked_rate
         self.pkg = Package()
         self.n = 0
         self.rel_n = 0
@@ -158,7 +159,7 @@ class XGen:
             ext = "emf" if self.maybe(self.anomalies * 0.5) else r.choice(["png", "png", "jpeg", "gif", "PNG"])
             name = "media/image%d.%s" % (len(self.pkg.media) + 1, ext)
             data = bytes(r.randrange(256) for _ in range(r.choice([0, 1, 3, 8, 20])))
-            if r.random() < 0.15:
+            if r.random() < self.linked_rate:
                 tgt = "http://example.invalid/linked%d.png" % len(self.pkg.linked) if self.maybe(0.5) else "linked%d.png" % len(self.pkg.linked)
                 self.pkg.linked[tgt] = ("data", data) if self.maybe(0.6) else ("error", None)
                 rid = self.add_rel(tgt, "http://schemas.openxmlformats.org/officeDocument/2006/relationships/image")
